@@ -198,7 +198,10 @@ def run(tier: str) -> int:
         cs = r.emitted
         if len(cs) > caps[p]:
             ck.cov.setdefault("sampled", {})[p] = [caps[p], len(cs)]
-            cs = rnd.sample(cs, caps[p])
+            # stratified: one-argument filter cells whose argument is the >4300-digit integer are rare and all kept (the compact defect lived there)
+            keep = [c for c in cs if p == "filter1" and "neghuge" in (c.get("args") or [])]
+            rest = [c for c in cs if not (p == "filter1" and "neghuge" in (c.get("args") or []))]
+            cs = keep + rnd.sample(rest, max(0, caps[p] - len(keep)) if len(keep) < caps[p] // 2 else caps[p] // 2)
         cells += cs
     ck.tlc("Exits automaton", rs[6])
     if rs[6].violated:
